@@ -69,6 +69,7 @@ type c09entry struct {
 	multi  bool
 	bytesH map[int]uint64 // option bits -> hash of B
 	valueH map[int]uint64 // option bits -> hash of the decoded value
+	okH    map[int]bool   // option bits -> every decoder of this option set returned the value
 }
 
 func (e *engine) note(format string, args ...interface{}) {
@@ -77,17 +78,18 @@ func (e *engine) note(format string, args ...interface{}) {
 	e.mu.Unlock()
 }
 
-func (e *engine) c09record(schemaID string, def, round, bits int, bytesH, valueH uint64, multi bool) {
+func (e *engine) c09record(schemaID string, def, round, bits int, bytesH, valueH uint64, multi bool, ok bool) {
 	key := fmt.Sprintf("%s/%d/%d", schemaID, def, round)
 	e.mu.Lock()
 	defer e.mu.Unlock()
 	ent := e.c09[key]
 	if ent == nil {
-		ent = &c09entry{schema: schemaID, def: def, round: round, multi: multi, bytesH: map[int]uint64{}, valueH: map[int]uint64{}}
+		ent = &c09entry{schema: schemaID, def: def, round: round, multi: multi, bytesH: map[int]uint64{}, valueH: map[int]uint64{}, okH: map[int]bool{}}
 		e.c09[key] = ent
 	}
 	ent.bytesH[bits] = bytesH
 	ent.valueH[bits] = valueH
+	ent.okH[bits] = ok
 }
 
 type job struct {
@@ -207,14 +209,16 @@ func (e *engine) runPair(j job, budget time.Duration, jobSeed int64) {
 			if r.expired() {
 				break
 			}
-			r.ctxClass = ""
-			if schema.EvolvedUnderNestedStruct(env1, env2, di) {
-				r.ctxClass = "nested-struct"
-			}
 			cfg := genConfigFor(round)
 			cfg.PresentProb = 0.75
 			raw2 := val.RandomRecord(r.valueRng(di, round), env2, di, cfg)
 			V2 := val.StripDeprecated(env2, schema.Ty{K: schema.TyRef, Ref: di}, raw2) // v2 never writes its deprecated fields
+			// the listed finding is a property of the VALUE: a nested struct that loses a message field under v1
+			// (the negation of the Lean guard TopStable); everything else must decode correctly on both paths
+			r.ctxClass = ""
+			if val.NestedStructShrinks(env1, env2, schema.Ty{K: schema.TyRef, Ref: di}, V2) {
+				r.ctxClass = "nested-struct"
+			}
 			vs2 := raw2.String()
 			rm, err := d2.Do(fmt.Sprintf("marshal %d %s", di, vs2))
 			if err != nil {
@@ -244,6 +248,22 @@ func (e *engine) runPair(j job, budget time.Duration, jobSeed int64) {
 				outcome = "fail"
 				r.fail("C04", "oracle", di, op, "ok "+want, ru.Short(), "", note)
 			}
+			// the unchecked decoder (GenerateUnsafeMethods) must agree with the checked one on these bytes too
+			opM := fmt.Sprintf("mustunmarshal %d %s", di, hexB2)
+			if rmu := r.real(opM); rmu.Class != "absent" {
+				if r.badReal("C04", di, opM, rmu, false) {
+					outcome = "fail"
+					if ru.Class == "ok" && e.props["C09"] {
+						r.fail("C09", "oracle", di, opM, ru.Short(), rmu.Short(), "", "MustUnmarshalBebop fails where UnmarshalBebop succeeds (bytes written under a newer schema version)")
+					}
+				} else if got, err := rmu.Val(); err != nil || got.CanonString() != want {
+					outcome = "fail"
+					r.fail("C04", "oracle", di, opM, "ok "+want, rmu.Short(), "", note)
+					if gu, err2 := ru.Val(); err2 == nil && (err != nil || got.CanonString() != gu.CanonString()) && e.props["C09"] {
+						r.fail("C09", "oracle", di, opM, ru.Short(), rmu.Short(), "", "MustUnmarshalBebop differs from UnmarshalBebop on bytes written under a newer schema version")
+					}
+				}
+			}
 			trail := []byte{0xde, 0xad, 0xbe, 0xef, 1, 2, 3}
 			b2, _ := val.Unhex(hexB2)
 			withTrail := val.Hex(append(append([]byte(nil), b2...), trail...))
@@ -265,11 +285,24 @@ func (e *engine) runPair(j job, budget time.Duration, jobSeed int64) {
 					}
 				}
 			}
+			// model vs REAL (a mismatch is a disagreement between the two; whether the real result is the right one
+			// is the oracle's business above -- on the listed nested-struct values both deviate in the same way)
 			mop := fmt.Sprintf("dec 1 %d %s", di, hexB2)
 			if md, ok := r.model("C04", di, mop); ok {
-				if w, err := md.Val(); err != nil || w.CanonString() != want {
-					outcome = "fail"
-					r.fail("C04", "mismatch", di, mop, "ok "+want, ru.Short(), md.Short(), note)
+				mv, merr := md.Val()
+				rv, rerr := ru.Val()
+				switch {
+				case merr == nil && rerr == nil:
+					if mv.CanonString() != rv.CanonString() {
+						outcome = "fail"
+						r.fail("C04", "mismatch", di, mop, md.Short(), ru.Short(), md.Short(), note)
+					}
+				case merr == nil || rerr == nil:
+					// one of them has no value: classes must still agree unless the real one is a resource failure
+					if md.Class != ru.Class && ru.Class != "crash" && ru.Class != "timeout" {
+						outcome = "fail"
+						r.fail("C04", "mismatch", di, mop, md.Short(), ru.Short(), md.Short(), note)
+					}
 				}
 			}
 			mop = fmt.Sprintf("decs %d %s", di, withTrail)
@@ -345,6 +378,18 @@ func (e *engine) c09finish(cases map[string]*schemaCase) {
 					Options: pkgbuild.OptionsFromBits(b), Def: sc.env.Defs[ent.def].Name, DefIdx: ent.def, Env: sc.env.Lines(),
 					Op: fmt.Sprintf("marshal %d %s", ent.def, session.Abbrev(regen(), 3000)), Expected: "the bytes produced under options " + pkgbuild.OptionsFromBits(bits[0]).String(),
 					Observed: "different bytes under options " + pkgbuild.OptionsFromBits(b).String()})
+				break
+			}
+			if ent.okH[b] != ent.okH[bits[0]] {
+				outcome = "one-option-set-fails"
+				bad, good := b, bits[0]
+				if ent.okH[b] {
+					bad, good = bits[0], b
+				}
+				e.coll.fail(Failure{Property: "C09", Kind: "oracle", Package: fmt.Sprintf("%s_o%02d", ent.schema, bad), Schema: sc.text,
+					Options: pkgbuild.OptionsFromBits(bad), Def: sc.env.Defs[ent.def].Name, DefIdx: ent.def, Env: sc.env.Lines(),
+					Op: fmt.Sprintf("every decoder on marshal %d %s", ent.def, session.Abbrev(regen(), 3000)), Expected: "the value, as under options " + pkgbuild.OptionsFromBits(good).String(),
+					Observed: "a decoder fails or returns another value under options " + pkgbuild.OptionsFromBits(bad).String()})
 				break
 			}
 			if ent.valueH[b] != ent.valueH[bits[0]] {
